@@ -1831,9 +1831,10 @@ class UserSpaceImpl(*_user_space_impl_base):
     def del_ref(self, name):
 
         if name in self.own_refs:
+            if self.own_refs[name].is_derived():
+                raise ValueError(
+                    "Derived ref '%s' cannot be deleted" % name)
             self.model.refmgr.del_ref(self, name)
-        elif name in self.is_derived():
-            raise KeyError("Derived ref '%s' cannot be deleted" % name)
         elif name in self.arguments:
             raise ValueError("Argument cannot be deleted")
         elif name in self.sys_refs:
